@@ -2,8 +2,13 @@
 package checks
 
 import (
+	"bytes"
+	"encoding/json"
 	"fmt"
 	"os"
+	"path/filepath"
+	"strings"
+	"time"
 
 	"verif/core"
 )
@@ -38,7 +43,85 @@ func Replay(prop, path string) int {
 		fmt.Fprintln(os.Stderr, err)
 		return 2
 	}
-	os.Stdout.Write(b)
+	// the artefact is a recorded execution of the real code: judge it again with the trace
+	// specification it belongs to and print what the specification objects to
+	var evs []core.Event
+	dec := json.NewDecoder(bytes.NewReader(b))
+	dec.UseNumber()
+	for {
+		var e core.Event
+		if err := dec.Decode(&e); err != nil {
+			break
+		}
+		evs = append(evs, e)
+	}
+	name, meta := filepath.Base(path), interface{}(path)
+	if len(evs) > 0 && evs[0]["ev"] == "Reset" {
+		if n, ok := evs[0]["name"].(string); ok {
+			name = n
+		}
+		meta = evs[0]["meta"]
+		evs = evs[1:]
+	}
+	module, cfg := "TxTrace", "TxTrace.cfg"
+	has := func(field string) bool {
+		for _, e := range evs {
+			if _, ok := e[field]; ok {
+				return true
+			}
+		}
+		return false
+	}
+	evIs := func(names ...string) bool {
+		for _, e := range evs {
+			for _, n := range names {
+				if e["ev"] == n {
+					return true
+				}
+			}
+		}
+		return false
+	}
+	switch {
+	case strings.HasSuffix(name, "-writer") || evIs("Sched", "Written"):
+		module, cfg = "WriterTrace", "WriterTrace.cfg"
+	case evIs("QOpen", "RNext", "QSwitched"):
+		module, cfg = "PQTrace", "PQTrace.cfg"
+	case evIs("Path"):
+		module, cfg = "PathLockTrace", "PathLockTrace.cfg"
+	case evIs("Open") && has("s0"):
+		module, cfg = "HeaderTrace", "HeaderTrace.cfg"
+	case evIs("Call"):
+		module, cfg = "ApiTrace", "ApiTrace_tx.cfg"
+		for _, e := range evs {
+			if m, _ := e["m"].(string); strings.HasPrefix(m, "Q") || strings.HasPrefix(m, "R") && m != "Rollback" && m != "RootPage" || strings.HasPrefix(m, "Ack") {
+				cfg = "ApiTrace_q.cfg"
+			}
+		}
+	case evIs("RCall", "WCall", "RAcq", "WAcq", "CCall"):
+		module, cfg = "LockTrace", "LockTrace.cfg"
+	}
+	r, err := core.NewRun(prop, "replay", 1)
+	if err != nil {
+		fmt.Fprintln(os.Stderr, err)
+		return 2
+	}
+	defer os.RemoveAll(r.Scratch)
+	tr := &core.Trace{Name: name, Meta: meta, Events: evs}
+	rej := r.Judge(core.JudgeOpts{Module: module, Config: cfg, Timeout: 20 * time.Minute, HeapMB: 4096, MaxRej: 20}, []*core.Trace{tr})
+	devs := r.TakeDevs()
+	fmt.Printf("trace %s: %d events, judged by %s\n", name, len(evs), module)
+	for _, d := range devs {
+		fmt.Printf("  deviation %s of %s at event #%d: %s\n", strings.TrimPrefix(d.Kind, "dev:"), d.Prop, d.EventIdx, d.Describe())
+	}
+	for _, rj := range rej {
+		fmt.Printf("  %s\n", rj.Describe())
+	}
+	if len(devs)+len(rej) > 0 {
+		fmt.Printf("VIOLATION property=%s replay=%s\n", prop, path)
+		return 1
+	}
+	fmt.Println("the specification accepts this execution")
 	return 0
 }
 
